@@ -105,7 +105,11 @@ def build_tree(tier):
     thorough = tier == "thorough"
     parts = PARTS_THOROUGH if thorough else PARTS_QUICK
     depth = 3 if thorough else 2
-    top = tempfile.mkdtemp(prefix="c20-")
+    tmp = tempfile.mkdtemp(prefix="c20-")
+    # the whole world lives below ancestors whose names start with `_` and `.`: the rules about `_` / `.` parts speak of the
+    # path BELOW the component directory, never of where the project happens to be checked out
+    top = os.path.join(tmp, "_work", ".cache")
+    os.makedirs(top)
     proj = os.path.join(top, "proj")
     roots = {
         "A": os.path.join(proj, "components"),
@@ -127,7 +131,7 @@ def build_tree(tier):
     _touch(os.path.join(apps, "c20outer", "__init__.py"))
     _touch(os.path.join(apps, "c20outer", "inner", "__init__.py"))
     put_product(os.path.join(apps, "c20outer", "inner", "components"), PARTS_QUICK, 1)
-    return {"top": top, "proj": proj, "roots": roots, "apps": apps, "tier": tier}
+    return {"top": tmp, "proj": proj, "roots": roots, "apps": apps, "tier": tier}
 
 
 # --------------------------------------------------------------------------- configurations
